@@ -464,6 +464,76 @@ def register(g):
               '/-- `process_dest_entry` of boss_sync.rs, translated (`none`: a panic) -/\n'
               f'def processDestEntrySrc (c : PCfg) (s : PState) (p : String) (dest_entry : Details) : Option PState :=\n  {e_d}\nend Rj.Generated\n')
 
+    def ordered_map():
+        """ordered_map.rs TRANSLATED: every method body is a sequence of statements out of a small table (Vec push / reverse / iter().filter_map,
+        HashMap insert / remove / get / get_mut().unwrap() / len); anything else: not translated (fail closed)"""
+        import re as _re
+        src = strip_comments(read('src/ordered_map.rs'))
+        sq = lambda t: _re.sub(r'\s+', '', t)
+        ok, why = True, ''
+        STM = {  # statement (white space removed) -> Lean state transformer on (vec, map), in the Option monad (none = panic)
+            'self.vec.push(k.clone());': 'some (OMap.mk (m.vec ++ [k]) m.map)',
+            'self.map.insert(k,v);': 'some (OMap.mk m.vec ((k, v) :: erase m.map k))',
+            'self.map.remove(k);': 'some (OMap.mk m.vec (erase m.map k))',
+            'self.vec.reverse();': 'some (OMap.mk m.vec.reverse m.map)',
+            '*self.map.get_mut(k).unwrap()=new_value;': '(if (lookup m.map k).isSome then some (OMap.mk m.vec ((k, new_value) :: erase m.map k)) else none)',
+        }
+        EXPR = {
+            'self.map.get(k)': 'lookup m.map k',
+            'self.map.len()': '(m.vec.eraseDups.filter fun k => (lookup m.map k).isSome).length',
+        }
+        ITER = 'letiter=self.vec.iter().filter_map(|k|self.map.get(k).and_then(|v|Some((k,v))));Box::new(iter)'
+        sigs = {'add': r'pub\s+fn\s+add\s*\(\s*&mut\s+self\s*,\s*k\s*:\s*K\s*,\s*v\s*:\s*V\s*\)\s*\{',
+                'remove': r'pub\s+fn\s+remove\s*\(\s*&mut\s+self\s*,\s*k\s*:\s*&K\s*\)\s*\{',
+                'update': r'pub\s+fn\s+update\s*\(\s*&mut\s+self\s*,\s*k\s*:\s*&K\s*,\s*new_value\s*:\s*V\s*\)\s*\{',
+                'reverse_order': r'pub\s+fn\s+reverse_order\s*\(\s*&mut\s+self\s*\)\s*\{',
+                'lookup': r'pub\s+fn\s+lookup\s*\(\s*&self\s*,\s*k\s*:\s*&K\s*\)\s*->\s*Option<&V>\s*\{',
+                'iter': r'pub\s+fn\s+iter\s*\(\s*&self\s*\)\s*->\s*Box<dyn\s+Iterator<Item\s*=\s*\(&K,\s*&V\)>\s*\+\s*\'_>\s*\{'}
+        out = {}
+        try:
+            if not _re.search(r'pub\s+struct\s+OrderedMap<K,\s*V>\s*\{\s*vec\s*:\s*Vec<K>\s*,\s*map\s*:\s*HashMap<K,\s*V>\s*,?\s*\}', src):
+                raise ValueError('struct OrderedMap')
+            if sq(fn_body(src, 'new') or '') not in ('OrderedMap{vec:vec![],map:HashMap::new()}', '{OrderedMap{vec:vec![],map:HashMap::new()}}'):
+                raise ValueError('new()')
+            fns = sorted(_re.findall(r'\bfn\s+(\w+)', src))
+            if fns != sorted(['new', 'add', 'len', 'iter', 'lookup', 'remove', 'reverse_order', 'update']):
+                raise ValueError('methods of OrderedMap: %r' % fns)
+            if sq(fn_body(src, 'len') or '').strip('{}') != 'self.map.len()': raise ValueError('body of len')
+            for name, sig in sigs.items():
+                if not _re.search(sig, src): raise ValueError('signature of ' + name)
+                body = sq(fn_body(src, name) or '')
+                if body.startswith('{') and body.endswith('}'): body = body[1:-1]
+                if name in ('add', 'remove', 'update', 'reverse_order'):
+                    steps = []
+                    while body:
+                        for k_, v_ in STM.items():
+                            if body.startswith(k_):
+                                steps.append(v_); body = body[len(k_):]; break
+                        else:
+                            raise ValueError(f'statement in {name}: {body[:40]}')
+                    e = 'some m'
+                    for st in reversed(steps):
+                        e = f'(({st}).bind fun (m : OMap V) => {e})'
+                    out[name] = e
+                elif name == 'lookup':
+                    if body not in EXPR: raise ValueError('body of lookup: ' + body[:40])
+                    out[name] = EXPR[body]
+                else:
+                    if body != ITER: raise ValueError('body of iter: ' + body[:60])
+                    out[name] = 'm.vec.filterMap fun k => (lookup m.map k).bind fun v => some (k, v)'
+        except Exception as e:
+            ok, why = False, repr(e)
+            status['ordered-map'] = f'ordered_map.rs is outside the translated subset: {why}'
+            out = {'add': 'none', 'remove': 'none', 'update': 'none', 'reverse_order': 'none', 'lookup': 'none', 'iter': '[]'}
+        write('OrderedMapSrc.lean', 'import RjModel.Model.OMap\nnamespace Rj.Generated\nvariable {V : Type}\n'
+              f'def orderedMapTranslated : Bool := {"true" if ok else "false"}\n'
+              f'def omAdd (m : OMap V) (k : String) (v : V) : Option (OMap V) :=\n  {out["add"]}\n'
+              f'def omRemove (m : OMap V) (k : String) : Option (OMap V) :=\n  {out["remove"]}\n'
+              f'def omUpdate (m : OMap V) (k : String) (new_value : V) : Option (OMap V) :=\n  {out["update"]}\n'
+              f'def omReverse (m : OMap V) : Option (OMap V) :=\n  {out["reverse_order"]}\n'
+              f'def omLookup (m : OMap V) (k : String) : Option V :=\n  {out["lookup"]}\n'
+              f'def omIter (m : OMap V) : List (String × V) :=\n  {out["iter"]}\nend Rj.Generated\n')
+
     def apply_filters_skel():
         """apply_filters of doer.rs: the early return for the root, the default by the first filter's kind, the assignment loop"""
         import re as _re
@@ -517,4 +587,4 @@ def register(g):
               f'def pathDescDriveGuard : String := {lean_str(guard)}\ndef pathDescSplits : Nat := {n_split}\nend Rj.Generated\n')
 
     g_ = g
-    return {'process_entries': process_entries, 'path_desc': path_desc, 'apply_filters_skel': apply_filters_skel, 'decisions': decisions, 'run_skel': run_skel, 'link_socket': link_socket, 'session': session, 'defaults': defaults, 'skeletons': skeletons, 'sites': sites, 'shutdown': shutdown, 'panic_sites': panic_sites, 'walker': walker, 'slash_table': slash_table}
+    return {'ordered_map': ordered_map, 'process_entries': process_entries, 'path_desc': path_desc, 'apply_filters_skel': apply_filters_skel, 'decisions': decisions, 'run_skel': run_skel, 'link_socket': link_socket, 'session': session, 'defaults': defaults, 'skeletons': skeletons, 'sites': sites, 'shutdown': shutdown, 'panic_sites': panic_sites, 'walker': walker, 'slash_table': slash_table}
